@@ -155,8 +155,15 @@ def oracle(case, line):
             if isinstance(mu, bytes) and not G.is_map(info):
                 if ih not in G.ref_magnet_hash(mu):
                     bad.append(("magnet-hash", "accepted magnet hash is not one the URI denotes"))
-            elif not (G.is_map(info) and G.mget(info, "pieces") == ih):
-                bad.append(("meta-hash", "meta download whose hash is not the supplied one"))
+            else:
+                # a bencoded torrent that sets meta_download ITSELF: the loader takes the info hash
+                # from its 'pieces' string, so the hash is chosen by the file's author and is not
+                # the SHA-1 of the info dictionary the property demands for bencoded torrents
+                bad.append(("meta-download-flag-in-torrent-file",
+                            "a bencoded torrent with info.meta_download != 0 is loaded as a magnet-style meta download: "
+                            "its info hash is the attacker-supplied 'pieces' string, not SHA-1(info)"))
+                if not (G.is_map(info) and G.mget(info, "pieces") == ih):
+                    bad.append(("meta-hash", "meta download whose hash is not the supplied one"))
         else:
             if not G.is_map(info) or hashlib.sha1(G7.ref_encode(info)).digest() != ih:
                 bad.append(("infohash", "info hash is not the SHA-1 of the canonical info dictionary"))
@@ -248,6 +255,12 @@ def run(rep, tier, seed, replay):
         else:
             for kl, text in viol:
                 rep.violation(text, case=case, model=m, impl=o, theorem="property oracle C08", klass=kl)
+    if tier == "thorough" and coq["ok"]:
+        r = ltv.sh(["timeout", "900", "coqchk", "-silent", "-o", "-Q", ".", "LTV", "LTV.C08.Properties"], cwd=ltv.COQ)
+        chk_ok = r.returncode == 0 and "Axioms: <none>" in r.stdout
+        rep.cov["coqchk"] = "ok: no axioms, no type-in-type, no assumed positivity/guardedness" if chk_ok else r.stdout[-800:]
+        if not chk_ok:
+            rep.violation("coqchk rejects the compiled C08 development: " + r.stdout[-300:], theorem="coqchk LTV.C08.Properties", found_input=False)
     if not coq["ok"]:
         rep.violation("C08 proof obligations no longer check (%d/%d): %s %s" % (
             coq["discharged"], coq["obligations"], "; ".join(coq["lint"] + coq["bad_axioms"]), coq["log"][-1500:]),
